@@ -4,7 +4,11 @@
 (* requests Tendermint delivers and thereby defines the shared request log;*)
 (* replica B consumes the same log later, may be stopped and reopened      *)
 (* after any Commit (its volatile state is dropped and rebuilt from what    *)
-(* was committed) and serves read-only CheckTx/Query traffic in between.    *)
+(* was committed) and serves read-only CheckTx/Query traffic in between;    *)
+(* it may also die INSIDE a block (CrashB): everything since its last       *)
+(* Commit is lost, the requests of the interrupted block are delivered to   *)
+(* it again and the responses of the second execution are the ones that     *)
+(* count.                                                                   *)
 (* Sources of nondeterminism the code must neutralise are explicit: the     *)
 (* order in which no-longer-staked validators are reported (a Go map is     *)
 (* iterated; the code sorts by address) - with "UnsortedGone" in Dev any    *)
@@ -12,10 +16,12 @@
 (***************************************************************************)
 EXTENDS Posmint
 
-CONSTANT MaxLag
+CONSTANTS MaxLag, MaxCrashB
 VARIABLES rb,      \* replica B's state
           log,     \* requests delivered so far (defined by A)
-          outA, outB   \* the consensus-relevant outputs of each replica, per request
+          outA, outB,  \* the consensus-relevant outputs of each replica, per request
+          cb,      \* what B has durably committed: its state then and how many requests it had answered
+          ncr      \* crashes of B so far
 
 \* the persisted part of a state (what a reopened instance recovers; stands for the app hash)
 Persisted(s) == [f \in {"bal", "supply", "val", "pidx", "prev", "prevTotal", "uq", "sinfo", "bits",
@@ -42,25 +48,32 @@ Outs(s, a) ==
 Reopen(s) == [s EXCEPT !.ntx = 0, !.next = 0, !.nro = 0, !.lastRes = "n/a", !.jailedNow = {}, !.slashLog = << >>, !.lastUpd = {}]
 
 RInit == /\ st = PreGenesis /\ rb = PreGenesis /\ log = << >> /\ outA = << >> /\ outB = << >>
+         /\ cb = [ok |-> FALSE, s |-> PreGenesis, n |-> 0] /\ ncr = 0
 
 Lead == /\ Len(log) - Len(outB) < MaxLag
         /\ \E a \in Acts(st) : LET s2 == Step(st, a) IN
              \E o \in Outs(s2, a) :
                /\ st' = s2 /\ log' = Append(log, a) /\ outA' = Append(outA, o)
-               /\ UNCHANGED <<rb, outB>>
+               /\ UNCHANGED <<rb, outB, cb, ncr>>
 Follow == /\ Len(outB) < Len(log)
           /\ LET a == log[Len(outB) + 1]  s2 == Step(rb, a) IN
-               \E o \in Outs(s2, a) : rb' = s2 /\ outB' = Append(outB, o)
-          /\ UNCHANGED <<st, log, outA>>
+               /\ \E o \in Outs(s2, a) : rb' = s2 /\ outB' = Append(outB, o)
+               /\ cb' = IF a.a = "Commit" THEN [ok |-> TRUE, s |-> s2, n |-> Len(outB) + 1] ELSE cb
+          /\ UNCHANGED <<st, log, outA, ncr>>
 Restart == /\ rb.phase = "committed" /\ rb.lastRes # "reopened"
            /\ rb' = [Reopen(rb) EXCEPT !.lastRes = "reopened"]
-           /\ UNCHANGED <<st, log, outA, outB>>
+           /\ UNCHANGED <<st, log, outA, outB, cb, ncr>>
 ReadOnlyB == /\ rb.nro < 1 /\ rb.phase # "init"
              /\ rb' = [rb EXCEPT !.nro = @ + 1]
-             /\ UNCHANGED <<st, log, outA, outB>>
+             /\ UNCHANGED <<st, log, outA, outB, cb, ncr>>
+\* B dies inside a block: it comes back with exactly what it had committed and is handed the
+\* requests after that Commit again (its earlier answers to them never counted)
+CrashB == /\ cb.ok /\ ncr < MaxCrashB /\ rb.phase \in {"begun", "ended"}
+          /\ rb' = Reopen(cb.s) /\ outB' = SubSeq(outB, 1, cb.n) /\ ncr' = ncr + 1
+          /\ UNCHANGED <<st, log, outA, cb>>
 
-RNext == Lead \/ Follow \/ Restart \/ ReadOnlyB
-RSpec == RInit /\ [][RNext]_<<st, rb, log, outA, outB>>
+RNext == Lead \/ Follow \/ Restart \/ ReadOnlyB \/ CrashB
+RSpec == RInit /\ [][RNext]_<<st, rb, log, outA, outB, cb, ncr>>
 
 Norm(o) == [o EXCEPT !.res = IF @ = "reopened" THEN "n/a" ELSE @]
 SameOutputs == \A k \in 1..Len(outB) : Norm(outA[k]) = Norm(outB[k])
